@@ -269,15 +269,17 @@ def sample_n_random_actions(td: TensorDict, n: int):
     valid actions
     """
     action_mask = td["action_mask"]
-    # check whether to use replacement or not
-    n_valid_actions = torch.sum(action_mask[:, 1:], 1).min()
-    if n_valid_actions < n:
-        replace = True
-    else:
-        replace = False
+    # check (per instance) whether to use replacement or not
+    enough = torch.sum(action_mask[:, 1:], 1) >= n
     ps = torch.rand((action_mask.shape))
     ps[~action_mask] = -torch.inf
     ps = torch.softmax(ps, dim=1)
-    selected = torch.multinomial(ps, n, replacement=replace).squeeze(1)
+    if enough.all():
+        selected = torch.multinomial(ps, n, replacement=False)
+    else:
+        selected = torch.multinomial(ps, n, replacement=True)
+        if enough.any():
+            # instances with enough valid actions still get distinct ones
+            selected[enough] = torch.multinomial(ps[enough], n, replacement=False)
     selected = rearrange(selected, "b n -> (n b)")
     return selected.to(td.device)
